@@ -32,6 +32,9 @@ static void check_skip(Out &o, const char *data, size_t size, bool mesh, const s
     if (pa->unique_id() != pb->unique_id() || b->GetAttributeByUniqueId(pa->unique_id()) != pb) { o.fail("C10 attribute not under its original unique id under skip" + an + ": " + gt); return; }
     if (pa->attribute_type() != pb->attribute_type()) { o.fail("C10 attribute changed its type under skip" + an + ": " + gt); return; }
     bool skipped = false; for (int t : skip) if (t == (int)pa->attribute_type()) skipped = true;
+    { bool badmap = !pb->is_mapping_identity() && pb->indices_map_size() != b->num_points();   // structural validity of what the skipping decode returned (C03)
+      for (PointIndex p(0); p < b->num_points() && !badmap; ++p) if (pb->mapped_index(p).value() >= pb->size()) badmap = true;
+      if (badmap) { o.fail("C10 skipping decode returns an attribute whose points map to missing values" + an + ": " + gt); return; } }
     const AttributeTransformData *td = pb->GetAttributeTransformData();
     const bool exposed = skipped && pa->data_type() == DT_FLOAT32 && pb->data_type() != DT_FLOAT32;   // integer data handed out in place of floats
     if (skipped && !exposed && pa->data_type() != pb->data_type() && pa->data_type() != DT_FLOAT32 && pa->data_type() != DT_FLOAT64 && pb->data_type() == DT_INT32 && pa->num_components() == pb->num_components()) {
